@@ -192,6 +192,9 @@ class Group:
                 if id in self:
                     raise ValueError(f"already have gateway with id {id!r}")
                 spec.id = id
+        elif spec.id in self:
+            # refuse before a process is started for the new gateway
+            raise ValueError(f"already have gateway with id {spec.id!r}")
 
     def _register(self, gateway: Gateway) -> None:
         assert not hasattr(gateway, "_group")
